@@ -19,6 +19,7 @@ import (
 	"sort"
 	"strings"
 	"sync"
+	"time"
 )
 
 type OptSet struct {
@@ -340,9 +341,8 @@ func differs(t Tools, p Prog, o OptSet, dir string, runs int) (d *Diff, ok bool)
 	if err != nil {
 		panic(err)
 	}
-	wave := 8
 	var ref *RunResult
-	for done := 0; done < runs; done += wave {
+	for done, wave := 0, 4; done < runs; done, wave = done+wave, 8 {
 		n := wave
 		if done+n > runs {
 			n = runs - done
@@ -370,13 +370,14 @@ func differs(t Tools, p Prog, o OptSet, dir string, runs int) (d *Diff, ok bool)
 var annGroup = regexp.MustCompile(`\s*\([a-z0-9.]+="[^"]*"(, [a-z0-9.]+="[^"]*")*\)`)
 
 // shrink minimises option list and IDL while the same kind of difference still shows within `runs` runs.
-func shrink(t Tools, p Prog, o OptSet, want *Diff, dir string, runs int, budget int) (Prog, OptSet, *Diff, int) {
+func shrink(t Tools, p Prog, o OptSet, want *Diff, dir string, runs int, budget int, limit time.Duration) (Prog, OptSet, *Diff, int) {
 	tests := 0
+	deadline := time.Now().Add(24 * time.Hour) // the option list is always minimised: the failure key depends on it
 	same := func(d *Diff) bool {
 		return d != nil && d.Kind == want.Kind && d.Attr == want.Attr && d.Pattern == want.Pattern
 	}
 	try := func(q Prog, oo OptSet) *Diff {
-		if tests >= budget {
+		if tests >= budget || time.Now().After(deadline) {
 			return nil
 		}
 		tests++
@@ -404,6 +405,7 @@ func shrink(t Tools, p Prog, o OptSet, want *Diff, dir string, runs int, budget 
 			o, best = oo, d
 		}
 	}
+	deadline = time.Now().Add(limit)
 	// whole include files (with their include line), then lines in halving chunks, then single lines
 	for fi := len(p.Files) - 1; fi >= 1; fi-- {
 		q := p.Clone()
@@ -420,22 +422,52 @@ func shrink(t Tools, p Prog, o OptSet, want *Diff, dir string, runs int, budget 
 			p, best = q, d
 		}
 	}
+	// ddmin over the lines of each file: subsets first, then complements, then finer granularity
 	for fi := 0; fi < len(p.Files); fi++ {
-		for chunk := (len(p.Files[fi].Lines) + 1) / 2; chunk >= 1; chunk /= 2 {
-			for at := 0; at < len(p.Files[fi].Lines); {
-				end := at + chunk
-				if end > len(p.Files[fi].Lines) {
-					end = len(p.Files[fi].Lines)
+		lines := p.Files[fi].Lines
+		with := func(ls []string) Prog {
+			q := p.Clone()
+			q.Files[fi].Lines = ls
+			return q
+		}
+		n := 2
+		for len(lines) >= 2 && tests < budget && time.Now().Before(deadline) {
+			size := (len(lines) + n - 1) / n
+			reduced := false
+			for at := 0; at < len(lines) && !reduced; at += size {
+				end := at + size
+				if end > len(lines) {
+					end = len(lines)
 				}
-				q := p.Clone()
-				q.Files[fi].Lines = append(append([]string(nil), p.Files[fi].Lines[:at]...), p.Files[fi].Lines[end:]...)
-				if d := try(q, o); d != nil {
-					p, best = q, d
-				} else {
-					at = end
+				sub := append([]string(nil), lines[at:end]...)
+				if d := try(with(sub), o); d != nil {
+					lines, best, n, reduced = sub, d, 2, true
+				}
+			}
+			for at := 0; at < len(lines) && !reduced && n > 2; at += size {
+				end := at + size
+				if end > len(lines) {
+					end = len(lines)
+				}
+				comp := append(append([]string(nil), lines[:at]...), lines[end:]...)
+				if d := try(with(comp), o); d != nil {
+					lines, best, reduced = comp, d, true
+					if n > 2 {
+						n--
+					}
+				}
+			}
+			if !reduced {
+				if n >= len(lines) {
+					break
+				}
+				n *= 2
+				if n > len(lines) {
+					n = len(lines)
 				}
 			}
 		}
+		p = with(lines)
 	}
 	// annotation groups, one at a time
 	for fi := 0; fi < len(p.Files); fi++ {
